@@ -88,6 +88,10 @@ CLAIMS = {
   text="Three-way comparison on single-threaded histories: every case of the pipeline, time, flatten, finalize, share, subject and group_by populations is run with the local and with the thread-safe types of the real crate; the two traces must be identical and agree with the single Lean model (theorems C18_equiv, C18_equiv_time record that the model has one definition for both forms).",
   note=COMMON_NOTE + "The Lean statement is shallow by design (one macro generates both forms); the assurance is the sampled differential check.",
   technique="differential equivalence check between the two real implementations and the Lean model (Lean statement: definitional)"),
+ "C10": dict(
+  text="Lean 4 theorems over the lock-level LTS (unbounded threads, program lengths, preemptions): ranked_invariant, lts_mutex, rank_deadlock_free, callbacks_serialised, no_infinite_run / C10_every_call_returns (every maximal execution is finite and ends with all calls returned), C10_ranked (the lock program of every operation of every pipeline shape — subject, slots, merge/zip/combine cells, finalize, behaviour subject, share, task handles — is nested and rank-increasing), C10_common_order / C10_no_opposite_orders (all subscribers of a subject see concurrent emissions in one order), C10_merge_all_relock (negative witness for the code before the merge_all fix). Correspondence: every lock acquisition of the real thread-safe code is recorded through hook H2 with the set of cells held, and compared token by token with the model's lock program for the same operation; oracle on the real trace: no re-lock, acyclic held-before relation, callbacks under their slot.",
+  note=COMMON_NOTE + "Partial by nature: proved for the LTS; std::sync::Mutex, the OS scheduler and the memory model (Relaxed atomics treated as single steps) are trusted to implement it; traces are recorded single-threaded, real interleavings are not replayed; debounce/throttle/buffer_with_time cells are not in the footprint model.",
+  technique="Lean 4 proof (invariant + well-founded rank argument over a labelled transition system; structural induction over pipeline shapes) + lock-trace correspondence check through a source hook"),
 }
 
 def chk(pid, c):
